@@ -3,6 +3,7 @@
 mod kutil;
 mod smoke;
 mod streams;
+mod timers;
 
 use simcore::worker::Scenario;
 
@@ -20,5 +21,6 @@ fn main() {
     let mut scenarios: Vec<Scenario> = Vec::new();
     scenarios.extend(smoke::scenarios());
     scenarios.extend(streams::scenarios());
+    scenarios.extend(timers::scenarios());
     simcore::worker::main(&scenarios)
 }
